@@ -520,6 +520,9 @@ package ship
 //@   ensures result.1 == nil ==> result.0 != nil
 //@   modifies $decoded
 
+// C01-G2 / C04-E7: the state and the data reader have exactly one writer each
+//@ writers [C04,C01] ShipConnection.smeState in (*ship.ShipConnection).setState, ship.NewConnectionHandler
+//@ writers [C01] ShipConnection.dataReader in (*ship.ShipConnection).approveHandshake
 // ---- construction ----
 //@ func NewConnectionHandler(dataProvider, dataHandler, role, localShipID, remoteSki, remoteShipId) [C04,C01,C09]
 //@   requires validRole(role) && dataProvider != nil && dataHandler != nil
